@@ -4,5 +4,10 @@ TEXTS = {
   "level": "exploration: thousands of generated send histories (all 72 low-level constructors, escape-heavy payloads, capacities 0..255, auto-flush timings, 1-4 threads with scheduler-owned preemptions) are decoded with an independent strict BiDiB decoder and compared with an independent encoder; failures shrink to a replay file",
   "note": "trusts the reference codec (ref/codec.hpp, bit-wise CRC) and the reference encoding table (harness/sends.cpp) written from the header documentation; interleavings only at lock/sleep granularity",
  },
+ "C18": {
+  "technique": "property-based testing (rapidcheck): generated calls of all 72 low-level constructors with boundary-weighted arguments and exact-size payload buffers, oracle = reference encoding table + documented ranges, ASan/UBSan",
+  "level": "exploration: every public bidib_send_* constructor is called with generated node addresses (depth 0-3), scalars over 0..255 with documented range boundaries weighted up, and payloads of length 0/max/max+1 in exact-size heap buffers; the wire delta is decoded independently and must be nothing (argument out of range) or exactly one message with the reference encoding, type < 0x80, length byte <= 127",
+  "note": "documented ranges and encodings are transcribed in harness/sends.cpp from include/lowlevel/*.h and the BiDiB message tables; where a header is silent the pinned behaviour (accept set) is the reference; bidib_send_sys_reset is a dialogue and is covered by C20",
+ },
 }
 NOT_YET = {}
